@@ -31,9 +31,14 @@ import (
 	"verif/harness/internal/vutil"
 )
 
+// gas of a transaction and of a sub call; multiplied by the magnification in the Proposal026-on configuration
+var (
+	txGas    uint64 = 1000000
+	childGas uint64 = 150000
+)
+
 const (
 	height   = 100
-	txGas    = 1000000
 	maxNodes = 12
 	plainA   = 13 // ids of plain (code-less, initially absent) accounts
 	plainB   = 14
@@ -147,13 +152,13 @@ func (c *compiler) body(n *node, isCreate bool) []byte {
 				a.Op(eu.PUSH0, eu.PUSH0, eu.PUSH0, eu.PUSH0)
 				switch ch.Kind {
 				case "call":
-					a.PushInt(uint64(it.V % 2)).PushInt(uint64(0x1000 + ch.id)).PushInt(150000).Op(eu.CALL)
+					a.PushInt(uint64(it.V % 2)).PushInt(uint64(0x1000 + ch.id)).PushInt(childGas).Op(eu.CALL)
 				case "callcode":
-					a.PushInt(uint64(it.V % 2)).PushInt(uint64(0x1000 + ch.id)).PushInt(150000).Op(eu.CALLCODE)
+					a.PushInt(uint64(it.V % 2)).PushInt(uint64(0x1000 + ch.id)).PushInt(childGas).Op(eu.CALLCODE)
 				case "delegate":
-					a.PushInt(uint64(0x1000 + ch.id)).PushInt(150000).Op(eu.DELEGATECALL)
+					a.PushInt(uint64(0x1000 + ch.id)).PushInt(childGas).Op(eu.DELEGATECALL)
 				case "static":
-					a.PushInt(uint64(0x1000 + ch.id)).PushInt(150000).Op(eu.STATICCALL)
+					a.PushInt(uint64(0x1000 + ch.id)).PushInt(childGas).Op(eu.STATICCALL)
 				default:
 					vutil.Fatalf("unknown frame kind %q", ch.Kind)
 				}
@@ -553,6 +558,7 @@ func main() {
 	nrand := flag.Int("random", 0, "seeded random scenarios")
 	salt := flag.Int64("salt", 0, "seed salt")
 	receipts := flag.String("receipts", "", "receipt layer: TLC call histories executed as transactions through the block executor")
+	p026 := flag.Bool("p026", false, "Proposal026-on configuration: jump table with doProposal026 applied (all gas x30)")
 	custom := flag.Bool("custom", false, "run the custom-opcode-in-static-context scenarios")
 	flag.Parse()
 	if *receipts != "" {
@@ -560,6 +566,10 @@ func main() {
 		return
 	}
 	eu.Boot(*scratch)
+	if *p026 {
+		common.LocalChainConfig.Proposal026Block = 0
+		txGas, childGas = 60000000, 4500000
+	}
 	tr := vutil.NewTrace(*out)
 	stats := map[string]int{}
 	r := vutil.Rng(*salt)
